@@ -482,9 +482,51 @@ func (p *Path) equalFold(s NF, lit string) *B {
 			return bFalse
 		}
 	}
-	lo, _ := p.interval(p.lenOf(s))
-	if lo > int64(3*len(lit)) {
+	lo, hi := p.interval(p.lenOf(s))
+	if lo > int64(3*len(lit)) || hi < int64(len(lit)) {
 		return bFalse
+	}
+	// fixed length, every position a literal byte or a 1-byte atom: decide position-wise
+	if lo == hi && lo == int64(len(lit)) {
+		var pos []Seg
+		okShape := true
+		for _, sg := range s {
+			if sg.atom == 0 {
+				for i := 0; i < len(sg.lit); i++ {
+					pos = append(pos, Seg{lit: sg.lit[i : i+1]})
+				}
+			} else if a := p.atoms[sg.atom]; p.alo(a) == 1 && p.ahi(a) == 1 {
+				pos = append(pos, sg)
+			} else {
+				okShape = false
+			}
+		}
+		if okShape && len(pos) == len(lit) {
+			all := true
+			for i, sg := range pos {
+				c := lit[i]
+				fs := setOf(c)
+				if lc := c | 0x20; lc >= 'a' && lc <= 'z' {
+					fs = setOf(lc, lc-0x20)
+				}
+				if sg.atom == 0 {
+					if !fs.has(sg.lit[0]) {
+						return bFalse
+					}
+					continue
+				}
+				a := p.atoms[sg.atom]
+				if a.cls.and(fs).empty() {
+					return bFalse
+				}
+				if !a.cls.subsetOf(fs) {
+					all = false
+				}
+			}
+			if all {
+				return bTrue
+			}
+		}
 	}
 	if len(lit) == 0 {
 		return p.simp(bLin(p.lenOf(s), EQ0))
